@@ -166,6 +166,12 @@ def shrink(c):
         yield d
 
 
+# functions of the implementation this property is anchored in: their line coverage under the correspondence cases is
+# measured on the staged copy and reported in the evidence (implementation_line_coverage)
+ANCHORS = [
+    "datascope/importance/shapley.py:compute_all_importances",
+]
+
 MANIFEST = {
     "text": "Proof: C13_kernels_equal -- the binary64 (Coq primitive float) models of the compiled kernel and of the "
             "reference kernel, written separately after the two sources, return the SAME float list on all argument "
